@@ -113,6 +113,15 @@ def case_hash(case):
 def _blame(exc):
     """Return 'verde' when the innermost frame that belongs to either the
     repository or the harness is in the repository, else 'harness'."""
+    if isinstance(exc, AttributeError):
+        # a public method or attribute that a verde object no longer offers (e.g. hidden by scikit-learn's available_if) surfaces in the harness frame that asked for it
+        import re
+
+        obj = getattr(exc, "obj", None)
+        m = re.match(r"This '(\w+)' has no attribute '(\w+)'", str(exc))
+        if (obj is not None and type(obj).__module__.split(".")[0] == "verde") or (m and m.group(1) in ("Chain", "Vector", "Spline", "SplineCV", "VectorSpline2D", "Trend", "KNeighbors",
+                                                                                                         "Linear", "Cubic", "BlockReduce", "BlockMean", "BlockKFold", "BlockShuffleSplit", "CheckerBoard")):
+            return "verde", "attribute lookup on a verde object"
     frames = traceback.extract_tb(exc.__traceback__)
     for fr in reversed(frames):
         if not os.path.isabs(fr.filename):  # e.g. Cython frames ("scipy/spatial/_qhull.pyx")
@@ -159,6 +168,7 @@ def evaluate(sub, case, rec=None, record=True):
     # half of the cases (a pure function of the case) leave out every option whose value is the documented default
     defaults.ACTIVE = defaults.flag_for(case)
     defaults.EXPLICIT = defaults.explicit_flag_for(case)
+    defaults.NPINT = defaults.npint_flag_for(case)
     try:
         sub.body(case, ctx)
     except Skip as s:
